@@ -11,7 +11,7 @@ from ..oracle import lexical
 from ..oracle.schema import clark, schema
 from ..run import hyp_search, mix
 
-RULE = ('(a) exhaustive layer: every declared (element, attribute) pair x {oracle-valid value, near-miss invalid value} '
+RULE = ('(a) exhaustive layer (constructor route also with a None keyword for another attribute, which must change nothing): every declared (element, attribute) pair x {oracle-valid value, near-miss invalid value} '
         'x {constructor keyword, dot assignment, parser (a one-element document read with parse_musicxml)}; per '
         'element a fixed list of undeclared names (other elements\' attribute names and made-up identifiers) on the '
         'constructor and dot routes.  (b) Hypothesis-drawn histories of set / overwrite / set-None / failing set on '
@@ -146,6 +146,15 @@ def pair(el, q, route, validity):
     if route == 'ctor':
         r = call(cls, *ctor_args(el), **{dot: pv})
         e = r.value if r.ok else None
+        # a keyword with the value None for ANOTHER (unset) attribute is a no-op: same verdict, same attributes
+        others = [py_name(x['qname'].split(':')[-1]) for x in s.attributes_of(t)
+                  if x['qname'] != q and not x['qname'].startswith('xlink:') and x['qname'] not in ('xml:space', 'name')]
+        for kw in ([{others[0]: None, dot: pv}, {dot: pv, others[-1]: None}] if others else []):
+            r3 = call(cls, *ctor_args(el), **kw)
+            if r3.ok != r.ok or (r.ok and dict(r3.value.attributes) != dict(e.attributes)):
+                return F('none-keyword-changes-constructor-result', t, dict(inp, keywords=sorted(kw)),
+                         {'with None keyword': r3.verdict() if not r3.ok else dict(r3.value.attributes),
+                          'without': r.verdict() if not r.ok else dict(e.attributes)}, 'identical', r3.site), 'run'
     else:
         r0 = call(cls, *ctor_args(el))
         if not r0.ok:
